@@ -2,13 +2,13 @@
 A module to evaluate datetimes and whether they are "on the edge" of a German "Stromtag" or "Gastag" respectively
 """
 
-from datetime import datetime, time
+from datetime import datetime, time, timedelta
 from typing import Callable, Literal, Optional, Tuple, Union
 
 # The problem with the stdlib zoneinfo is, that the availability of timezones via ZoneInfo(zone_key) depends on the OS
 # and system on which you're running it. In some cases "Europe/Berlin" might be available, but generally it's not,
 # and it's PITA to manually define timezones. So we're using pytz as a datasource for timezone information.
-from pytz import timezone, utc
+from pytz import timezone
 
 from ahbicht.models.condition_nodes import EvaluatedFormatConstraint
 
@@ -61,11 +61,10 @@ def has_no_utc_offset(entered_input: str) -> EvaluatedFormatConstraint:
     date_time, error_result = parse_as_datetime(entered_input)
     if error_result is not None:
         return error_result
-    original_time = date_time.time()  # type:ignore[union-attr]
-    utc_time = date_time.astimezone(tz=utc).time()  # type:ignore[union-attr]
-    if utc_time == original_time and utc_time.hour == 0 and utc_time.minute == 0 and utc_time.second == 0:
+    utc_offset = date_time.utcoffset()  # type:ignore[union-attr]
+    if utc_offset == timedelta(0):
         return EvaluatedFormatConstraint(format_constraint_fulfilled=True, error_message=None)
-    error_message = f"The provided date time '{entered_input}' has a UTC offset of {utc_time}."
+    error_message = f"The provided date time '{entered_input}' has a UTC offset of {utc_offset}."
     return EvaluatedFormatConstraint(format_constraint_fulfilled=False, error_message=error_message)
 
 
